@@ -140,7 +140,7 @@ func pickCode(r *gen.Rng) codes.Code { return injectCodes[r.Intn(len(injectCodes
 // protocol state machine around it is).
 
 var (
-	refEnc, _ = zstd.NewWriter(nil, zstd.WithEncoderConcurrency(1))
+	refEnc, _ = zstd.NewWriter(nil, zstd.WithEncoderConcurrency(1), zstd.WithEncoderLevel(zstd.SpeedFastest))
 	refMu     sync.Mutex
 )
 
@@ -235,28 +235,142 @@ func (p *countingPool) NewDecoder(ctx context.Context, r io.Reader) (bb_zstd.Dec
 	return &cDecoder{Decoder: d, p: p}, nil
 }
 
-// The real pools are created once per worker process and shared by its cases
-// (creating zstd codecs is expensive, and a daemon shares its pool as well);
-// every case wraps one of them in its own counting pool. Flavours: what
-// NewPoolFromConfiguration builds (bounded / unbounded, synchronous codecs)
-// plus asynchronous codecs.
+// keepPool is the harness's own bb_zstd.Pool: klauspost codecs kept on a plain
+// free list. Under -race building a fresh zstd encoder costs 100-600 ms and
+// sync.Pool (which the repository's bounded pool uses) drops items on purpose,
+// so the repository's pools are used for a minority of the cases only; the
+// pool implementation is not what C14 is about, the code that acquires and
+// releases codecs is.
+type keepPool struct {
+	mu   sync.Mutex
+	encs []*zstd.Encoder
+	decs []*zstd.Decoder
+	conc int
+}
+
+type keptEncoder struct {
+	*zstd.Encoder
+	p    *keepPool
+	done bool
+}
+
+func (e *keptEncoder) Close() error {
+	if e.done {
+		return nil
+	}
+	e.done = true
+	err := e.Encoder.Close()
+	e.Encoder.Reset(nil)
+	e.p.mu.Lock()
+	e.p.encs = append(e.p.encs, e.Encoder)
+	e.p.mu.Unlock()
+	return err
+}
+
+type keptDecoder struct {
+	*zstd.Decoder
+	p    *keepPool
+	done bool
+}
+
+func (d *keptDecoder) Close() {
+	if d.done {
+		return
+	}
+	d.done = true
+	d.Decoder.Reset(nil)
+	d.p.mu.Lock()
+	d.p.decs = append(d.p.decs, d.Decoder)
+	d.p.mu.Unlock()
+}
+
+func (p *keepPool) NewEncoder(ctx context.Context, w io.Writer) (bb_zstd.Encoder, error) {
+	p.mu.Lock()
+	var e *zstd.Encoder
+	if n := len(p.encs); n > 0 {
+		e, p.encs = p.encs[n-1], p.encs[:n-1]
+	}
+	p.mu.Unlock()
+	if e == nil {
+		var err error
+		if e, err = zstd.NewWriter(nil, zstd.WithEncoderConcurrency(p.conc), zstd.WithEncoderLevel(zstd.SpeedFastest)); err != nil {
+			return nil, err
+		}
+	}
+	e.Reset(w)
+	return &keptEncoder{Encoder: e, p: p}, nil
+}
+
+func (p *keepPool) NewDecoder(ctx context.Context, r io.Reader) (bb_zstd.Decoder, error) {
+	p.mu.Lock()
+	var d *zstd.Decoder
+	if n := len(p.decs); n > 0 {
+		d, p.decs = p.decs[n-1], p.decs[:n-1]
+	}
+	p.mu.Unlock()
+	if d == nil {
+		var err error
+		if d, err = zstd.NewReader(nil, zstd.WithDecoderConcurrency(p.conc)); err != nil {
+			return nil, err
+		}
+	}
+	if err := d.Reset(r); err != nil {
+		return nil, err
+	}
+	return &keptDecoder{Decoder: d, p: p}, nil
+}
+
+// Pools are created once per worker process and shared by its cases (a daemon
+// shares its pool as well); every case wraps one of them in its own counting
+// pool. Besides the two keepPools: what NewPoolFromConfiguration builds
+// (bounded / unbounded, synchronous codecs) and a bounded pool with
+// asynchronous codecs.
 var (
 	sharedPoolsOnce sync.Once
 	sharedPools     []bb_zstd.Pool
-	sharedPoolNames = []string{"bounded1", "bounded4", "bounded2-async", "unbounded"}
+	sharedPoolNames = []string{"keep-sync", "keep-async", "bounded1", "bounded4", "bounded2-async", "unbounded"}
 )
 
-func newPool(r *gen.Rng) *countingPool {
+func initPools() {
 	sharedPoolsOnce.Do(func() {
+		eo := func(conc int) []zstd.EOption {
+			return []zstd.EOption{zstd.WithEncoderConcurrency(conc), zstd.WithEncoderLevel(zstd.SpeedFastest)}
+		}
+		do := func(conc int) []zstd.DOption {
+			return []zstd.DOption{zstd.WithDecoderConcurrency(conc)}
+		}
 		sharedPools = []bb_zstd.Pool{
-			bb_zstd.NewBoundedPool(1, 1, []zstd.EOption{zstd.WithEncoderConcurrency(1)}, []zstd.DOption{zstd.WithDecoderConcurrency(1)}),
-			bb_zstd.NewBoundedPool(4, 4, []zstd.EOption{zstd.WithEncoderConcurrency(1), zstd.WithEncoderLevel(zstd.SpeedFastest)}, []zstd.DOption{zstd.WithDecoderConcurrency(1)}),
-			bb_zstd.NewBoundedPool(2, 2, []zstd.EOption{zstd.WithEncoderConcurrency(2)}, []zstd.DOption{zstd.WithDecoderConcurrency(2)}),
-			bb_zstd.NewUnboundedPool([]zstd.EOption{zstd.WithEncoderConcurrency(1), zstd.WithEncoderLevel(zstd.SpeedFastest), zstd.WithWindowSize(1 << 16)}, []zstd.DOption{zstd.WithDecoderConcurrency(1)}),
+			&keepPool{conc: 1},
+			&keepPool{conc: 2},
+			bb_zstd.NewBoundedPool(1, 1, eo(1), do(1)),
+			bb_zstd.NewBoundedPool(4, 4, eo(1), do(1)),
+			bb_zstd.NewBoundedPool(2, 2, eo(2), do(2)),
+			bb_zstd.NewUnboundedPool(eo(1), do(1)),
 		}
 	})
-	i := r.Pick(0, 0, 0, 1, 1, 1, 2, 2, 3) // the unbounded pool builds a codec per call: keep it rare
+}
+
+func poolByIndex(i int) *countingPool {
+	initPools()
 	return &countingPool{name: sharedPoolNames[i], inner: sharedPools[i]}
+}
+
+func newPool(r *gen.Rng) *countingPool {
+	k := r.Intn(100)
+	switch {
+	case k < 62:
+		return poolByIndex(0)
+	case k < 82:
+		return poolByIndex(1)
+	case k < 89:
+		return poolByIndex(2)
+	case k < 94:
+		return poolByIndex(3)
+	case k < 98:
+		return poolByIndex(4)
+	default:
+		return poolByIndex(5)
+	}
 }
 
 // ---------------------------------------------------------------------------
